@@ -11,6 +11,7 @@ import (
 	"os"
 	"strconv"
 	"strings"
+	"time"
 )
 
 type handler func(args []int) []int
@@ -72,16 +73,44 @@ func b2i(b bool) int {
 	return 0
 }
 
-func runCase(h handler, args []int) (res []int, panicked string) {
-	defer func() {
-		if r := recover(); r != nil {
-			panicked = strings.ReplaceAll(fmt.Sprint(r), "\n", " ")
-			if panicked == "" {
-				panicked = "panic"
+// caseTimeout bounds one case (VERIF_CASE_TIMEOUT seconds, default 120): a case that does not return
+// is reported as "P hang ..." and abandoned (its goroutine is left behind), so that one hanging
+// input cannot stall the whole run.
+var caseTimeout = func() time.Duration {
+	if v, err := strconv.Atoi(os.Getenv("VERIF_CASE_TIMEOUT")); err == nil && v > 0 {
+		return time.Duration(v) * time.Second
+	}
+	return 120 * time.Second
+}()
+
+type caseResult struct {
+	res      []int
+	lib      []int
+	panicked string
+}
+
+func runCase(h handler, args []int) ([]int, []int, string) {
+	ch := make(chan caseResult, 1)
+	go func() {
+		var cr caseResult
+		defer func() {
+			if r := recover(); r != nil {
+				cr.panicked = strings.ReplaceAll(fmt.Sprint(r), "\n", " ")
+				if cr.panicked == "" {
+					cr.panicked = "panic"
+				}
 			}
-		}
+			cr.lib = append([]int(nil), libOut...)
+			ch <- cr
+		}()
+		cr.res = h(args)
 	}()
-	return h(args), ""
+	select {
+	case cr := <-ch:
+		return cr.res, cr.lib, cr.panicked
+	case <-time.After(caseTimeout):
+		return nil, nil, "hang: the case did not return within " + caseTimeout.String()
+	}
 }
 
 func main() {
@@ -124,12 +153,12 @@ func main() {
 			fmt.Fprintf(w, "%s E bad-token\n", id)
 			continue
 		}
-		libOut = libOut[:0]
-		res, p := runCase(h, args)
-		if len(libOut) > 0 {
+		libOut = nil
+		res, lib, p := runCase(h, args)
+		if len(lib) > 0 {
 			w.WriteString(id)
 			w.WriteString(" L")
-			for _, v := range libOut {
+			for _, v := range lib {
 				w.WriteByte(' ')
 				w.WriteString(strconv.Itoa(v))
 			}
